@@ -497,10 +497,10 @@ pub fn property() -> Property {
             "float constructors: round-to-nearest is implied by the rustdoc example, hence +-1ns tolerance; float views within 4e-16 relative",
         ],
         checks: vec![
-            Box::new(Prop { name: "c12.span_history", quick: 600_000, thorough: 30_000_000, strategy: strat_span_history, test: test_span_history }),
-            Box::new(Prop { name: "c12.conversions", quick: 600_000, thorough: 20_000_000, strategy: strat_conv, test: test_conversions }),
-            Box::new(Prop { name: "c12.signed_duration", quick: 1_500_000, thorough: 60_000_000, strategy: strat_sd, test: test_sd }),
-            Box::new(Prop { name: "c12.floats", quick: 1_000_000, thorough: 40_000_000, strategy: strat_float, test: test_float }),
+            Box::new(Prop { name: "c12.span_history", quick: 2_400_000, thorough: 30_000_000, strategy: strat_span_history, test: test_span_history }),
+            Box::new(Prop { name: "c12.conversions", quick: 2_400_000, thorough: 20_000_000, strategy: strat_conv, test: test_conversions }),
+            Box::new(Prop { name: "c12.signed_duration", quick: 6_000_000, thorough: 60_000_000, strategy: strat_sd, test: test_sd }),
+            Box::new(Prop { name: "c12.floats", quick: 4_000_000, thorough: 40_000_000, strategy: strat_float, test: test_float }),
         ],
         floors: |rec| {
             rec.floor("c12.span_history:refusal", "c12.span_history:cases", 0.15);
